@@ -3,6 +3,8 @@ mod alloc;
 mod conn;
 mod mock;
 mod refcodec;
+mod rl;
+mod wire;
 
 #[global_allocator]
 static GLOBAL: alloc::Counting = alloc::Counting;
@@ -12,6 +14,8 @@ fn main() {
     let sub = args.get(1).map(|s| s.as_str()).unwrap_or("");
     match sub {
         "conn" => conn::main(&args[2..]),
+        "rl" => rl::main(&args[2..]),
+        "wire" => wire::main(&args[2..]),
         _ => {
             eprintln!("usage: hx <conn|...> [options]");
             std::process::exit(2);
